@@ -23,8 +23,8 @@ fn range(ty: Option<&str>, tag: &str, extra: &str) -> Val {
     })
 }
 
-pub const KINDS: [&str; 16] = [
-    "string", "var_x", "var_y_number", "var_x_date", "comp_b", "comp_i_var_x", "range_i32", "range_u8", "range_f32", "plural", "fk_rename_plural", "fk_rename_range", "fk_lit_count", "null", "number", "bool",
+pub const KINDS: [&str; 19] = [
+    "string", "var_x", "var_y_number", "var_x_date", "comp_b", "comp_i_var_x", "comp_b_var_y", "comp_b_comp_i_var_w", "comp_b_twice", "range_i32", "range_u8", "range_f32", "plural", "fk_rename_plural", "fk_rename_range", "fk_lit_count", "null", "number", "bool",
 ];
 
 /// entries for key `k` of kind `kind` (plural adds two entries)
@@ -37,6 +37,10 @@ pub fn kind_entries(kind: &str, tag: &str) -> Vec<(String, Val)> {
         "var_x_date" => one(s(vec![text(&format!("[{tag}]")), var_fmt("x", " date(date_length: full)")])),
         "comp_b" => one(s(vec![comp("b", vec![text(&format!("[{tag}]"))])])),
         "comp_i_var_x" => one(s(vec![comp("i", vec![var("x")]), text(&format!("[{tag}]"))])),
+        // the same component name as "comp_b", wrapping things "comp_b" does not hold
+        "comp_b_var_y" => one(s(vec![comp("b", vec![text(&format!("[{tag}]")), var("y")])])),
+        "comp_b_comp_i_var_w" => one(s(vec![comp("b", vec![comp("i", vec![var("w")]), text(&format!("[{tag}]"))])])),
+        "comp_b_twice" => one(s(vec![comp("b", vec![text(&format!("[{tag}]"))]), comp("b", vec![var("q"), comp("b", vec![var("r")])])])),
         "range_i32" => one(range(None, tag, "z")),
         "range_u8" => one(range(Some("u8"), tag, "z")),
         "range_f32" => one(range(Some("f32"), tag, "w")),
@@ -75,7 +79,7 @@ pub fn run(tier: Tier) -> i32 {
     let scratch = Scratch::new("c08");
     let keys_total = Mutex::new(0u64);
     let kinds: Vec<&str> = match tier {
-        Tier::Quick => KINDS.iter().copied().filter(|k| !matches!(*k, "var_x_date" | "bool" | "fk_lit_count")).collect(),
+        Tier::Quick => KINDS.iter().copied().filter(|k| !matches!(*k, "var_x_date" | "bool" | "fk_lit_count" | "range_i32")).collect(),
         Tier::Thorough => KINDS.to_vec(),
     };
     let mut jobs: Vec<Vec<&str>> = vec![];
